@@ -3,7 +3,8 @@
 Oracles: round trips on every admissible plaintext length; RSA paddings decoded / produced by an independent
 RFC 8017 model using the library's own keys; homomorphic identities against integer arithmetic modulo the
 plaintext modulus; decryptions verified through the defining congruence with the private key (c^l = g^(m l));
-ECDH / ECMQV keys recomputed over the curve model + KDF2; ECIES keys and tags recomputed (KDF2 + HMAC); Shamir
+ECDH / ECMQV keys recomputed over the curve model + KDF2 (ECDH as cofactor
+Diffie-Hellman [h d]Q also for peer keys outside the prime-order subgroup); ECIES keys and tags recomputed (KDF2 + HMAC); Shamir
 shares checked against Lagrange interpolation; PSI against Python set intersection; pairing-based protocols
 (IBE, BGN, SOK, delegation, MPC pairing) against lower-layer pairing primitives.  Corrupted ciphertexts must
 never decrypt to the original plaintext with RLC_OK.
@@ -17,20 +18,29 @@ from ..rt import MonitorViolation
 from ..ctx import hx
 from ..model import cprt
 from ..model.cprt import PX, H, kdf2, hmac256
-from ..model.curves import is_probable_prime
+from ..model.curves import is_probable_prime, sqrt_mod
+from ..model import mdbc
 
 LEVEL = "exploration"
 RULE = ("per scheme: keys from the scheme's own key generation (several sizes); plaintexts of every admissible length "
         "(min..max for the key, random / all-zero / all-0xFF / leading-zero), boundary integers 0, 1, n-1, n/2 and operands "
         "whose sums wrap the plaintext modulus; every threshold (k, n) with k <= n <= 6 and every k-subset of shares; "
         "receiver / sender sets of 0..4 elements with every overlap size; every single-byte mutation of ciphertexts and "
-        "tags, wrong lengths, model-built RSA ciphertexts with crafted paddings; tampered helper answers in pairing "
-        "delegation; a case is non-trivial when a library routine is invoked; distinct = distinct (routine, class, inputs)")
+        "tags, wrong lengths, model-built RSA ciphertexts with crafted paddings; every condition a decoder checks (OAEP "
+        "lHash / PS / separator / leading octet, the v1.5 and basic blocks, the Rabin redundancy and marker, the ECIES tag and "
+        "the padding under a right tag, all built by the models) violated in each structured way of alterations(): one octet "
+        "first / last / inner, one bit, two or three octets whose differences cancel under xor or addition or are "
+        "complementary, exchanged octets, inverted, reversed, rotated, one half only, zero; on curves with cofactor h > 1 "
+        "(Curve25519 h = 8, B12-381) ECDH with peer keys Q + T and T alone, T = [n]R of order 2, 4, 8 or a larger divisor of "
+        "h; tampered helper answers in pairing delegation; a case is non-trivial when a library routine is invoked; distinct = distinct (routine, class, inputs)")
 ASSUMPTIONS = ["Python integers, hashlib / hmac and the curve model are the reference; MGF1, KDF2, OAEP and EME-PKCS1-v1_5 "
                "follow RFC 8017 / IEEE 1363",
                "ECDH / ECMQV shared secrets are converted to octets as fixed-length field elements (SEC 1 2.3.5) before the "
                "KDF; ECIES keys follow the conversion the source documents as deliberate (BigInteger-style x-coordinate, "
                "KDF2, AES-128-CBC with zero IV, HMAC-SHA-256 over the body) - the AES layer itself is judged by C14",
+               "model-built ECIES ciphertexts use the FIPS 197 / PKCS#7 model of verif/model/mdbc.py; cp_ecdh_key is cofactor "
+               "Diffie-Hellman (it multiplies the peer point by the cofactor), so its value is defined for every point of the "
+               "curve; ECMQV and ECIES have no cofactor step and are only judged with points of the prime-order subgroup",
                "pairing-based protocols are judged with pc_map, g1/g2/gt arithmetic, hash-to-curve and gt_write_bin of the "
                "library (monitored by C04 C07 C12 C13), never with the cp_* routine under test",
                "plaintext spaces: RSA 0..k-2hLen-2 bytes (OAEP), Rabin 1..k-10 bytes, Benaloh Z_t, Paillier Z_n, "
@@ -50,6 +60,60 @@ def parts(tier):
     if not q:
         ps += [dict(part="rsa", cfg="rsa-pkcs1", shards=4), dict(part="rsa", cfg="rsa-basic", shards=4)]
     return ps
+
+
+def alterations(ref, rng, every=False):
+    """Structured ways in which a string can differ from the reference a decoder compares it with -> [(class, bytes)].
+    One altered octet (first / last / inner, or every position), one bit, two and three octets whose differences cancel
+    under exclusive-or, under addition, or are complementary, exchanged octets (same multiset), the string inverted /
+    shifted by a constant / reversed / rotated, only one half correct, all zero.  A comparison is right only if it
+    refuses every one of them; each family is what a particular slip of a compare-and-accumulate loop lets through."""
+    ref = bytes(ref)
+    L = len(ref)
+    out = []
+
+    def mod(cls, edits):
+        b = bytearray(ref)
+        for i, v in edits.items():
+            b[i] = v & 0xFF
+        if bytes(b) != ref:
+            out.append((cls, bytes(b)))
+
+    def where(i):
+        return "first" if i == 0 else ("last" if i == L - 1 else "inner")
+    if L < 4:
+        return [("1-octet-" + where(i), ref[:i] + bytes([ref[i] ^ rng.randrange(1, 256)]) + ref[i + 1:]) for i in range(L)]
+    for i in (range(L) if every else sorted({0, L - 1, rng.randrange(1, L - 1)})):
+        mod("1-octet-" + where(i), {i: ref[i] ^ rng.randrange(1, 256)})
+    i = rng.randrange(L)
+    mod("1-bit", {i: ref[i] ^ (1 << rng.randrange(8))})
+    for d in (0x01, 0x80, rng.randrange(1, 256)):
+        i, j = rng.sample(range(L), 2)
+        mod("2-octets-equal-xor", {i: ref[i] ^ d, j: ref[j] ^ d})
+    d = rng.randrange(1, 256)
+    mod("2-octets-equal-xor", {0: ref[0] ^ d, L - 1: ref[L - 1] ^ d})
+    mod("2-octets-equal-xor", {0: ref[0] ^ d, 1: ref[1] ^ d})
+    i, j = rng.sample(range(L), 2)
+    d = rng.randrange(1, 256)
+    mod("2-octets-opposite-sum", {i: ref[i] + d, j: ref[j] - d})
+    mod("2-octets-complementary-xor", {i: ref[i] ^ d, j: ref[j] ^ d ^ 0xFF})
+    i, j, l = rng.sample(range(L), 3)
+    d1 = rng.randrange(1, 256)
+    d2 = rng.choice([x for x in range(1, 256) if x != d1])
+    mod("3-octets-xor-zero", {i: ref[i] ^ d1, j: ref[j] ^ d2, l: ref[l] ^ d1 ^ d2})
+    pairs = [(a, b) for a in range(L) for b in range(a + 1, L) if ref[a] != ref[b]]
+    if pairs:
+        i, j = rng.choice(pairs)
+        mod("2-octets-exchanged", {i: ref[j], j: ref[i]})
+    d = rng.randrange(1, 255)
+    for cls, b in (("inverted", bytes(x ^ 0xFF for x in ref)), ("all-octets-same-xor", bytes(x ^ d for x in ref)),
+                   ("reversed", ref[::-1]), ("rotated", ref[1:] + ref[:1]),
+                   ("first-half-only", ref[:L // 2] + bytes(rng.getrandbits(8) for _ in range(L - L // 2))),
+                   ("second-half-only", bytes(rng.getrandbits(8) for _ in range(L // 2)) + ref[L // 2:]),
+                   ("zero", bytes(L))):
+        if b != ref:
+            out.append((cls, b))
+    return out
 
 
 class W(object):
@@ -360,6 +424,11 @@ class RsaEnc(W):
                 feed("empty-message", bytes(k - 1) + b"\xff")
                 feed("full", b"\x00\xff" + self.rbytes(k - 2))
 
+        # ---------------- every decoding condition violated in structured ways (the model gives verdict and value)
+        for cls, em, note in self.structured(k, mx, heavy):
+            if self.mine():
+                feed(cls, em, note)
+
         # ---------------- corrupted ciphertexts: verdict and value must equal the model's
         if last is not None:
             pt, ct = last
@@ -402,6 +471,103 @@ class RsaEnc(W):
                 good, c3, res = self.enc(pt, key, cap=k - 1)
                 ctx.check(not good, ctx.cur_key + "|accepted", {"cap": k - 1})
             self.case("cp_rsa_enc|capacity-too-small,%s" % pad, [key["bits"], k], cap_enc)
+
+    def _oaep_block(self, seed, db, first=0):
+        mdb = cprt.xor(db, cprt.mgf1(seed, len(db)))
+        ms = cprt.xor(seed, cprt.mgf1(mdb, cprt.HL))
+        return bytes([first]) + ms + mdb
+
+    def structured(self, k, mx, every):
+        """encoded messages that violate one condition of the decoding at a time, each in the ways listed by
+        alterations(): -> [(class, EM, note)].  OAEP: lHash' != lHash, PS not all zero, separator missing / altered /
+        moved, Y != 0.  EME-PKCS1-v1_5: leading octet, block type, zero octets inside the first eight of PS, separator
+        missing.  Basic: leading octet, marker altered / missing."""
+        rng, pad = self.rng, self.pad
+        HL = cprt.HL
+        out = []
+        top = (0x01, 0x02, 0x04, 0x08, 0x10, 0x20, 0x40, 0x80, 0xFF)
+        if pad == "oaep":
+            if mx < 6:
+                return out
+            lh = H(b"")
+            m = self.rbytes(rng.randrange(1, mx - 3))
+            nps = k - len(m) - 2 * HL - 2
+            seed = self.rbytes(HL)
+            blk = lambda lhash=lh, ps=None, sep=b"\x01", msg=m, first=0: \
+                self._oaep_block(seed, lhash + (bytes(nps) if ps is None else ps) + sep + msg, first)
+            out.append(("valid", blk(), None))
+            for cls, l2 in alterations(lh, rng, every):
+                out.append(("lhash:" + cls, blk(lhash=l2), l2.hex()))
+            # PS: one / two octets that are not zero (the value 0x01 is a separator in an earlier position: valid, the
+            # message then starts with the remaining zero octets)
+            for i in sorted({0, nps - 1, rng.randrange(nps)}):
+                for v in (0x02, 0x80, 0xFF):
+                    ps = bytearray(nps)
+                    ps[i] = v
+                    out.append(("ps-nonzero:1-octet", blk(ps=bytes(ps)), [i, v]))
+                ps = bytearray(nps)
+                ps[i] = 0x01
+                out.append(("separator-earlier", blk(ps=bytes(ps)), i))
+            if nps >= 2:
+                for v, w in ((2, 2), (0x80, 0x80), (0x55, 0xAA), (0x01, 0xFF), (0xFF, 0x01), (0xFE, 0x02)):
+                    i, j = sorted(rng.sample(range(nps), 2))
+                    ps = bytearray(nps)
+                    ps[i], ps[j] = v, w
+                    out.append(("ps-nonzero:2-octets", blk(ps=bytes(ps)), [i, v, j, w]))
+                out.append(("ps-nonzero:all", blk(ps=b"\xff" * nps), None))
+                out.append(("ps-nonzero:all", blk(ps=b"\x01" * nps), None))
+            # separator: every single-bit alteration, missing (the next non-zero octet of M decides), moved into M
+            for v in (0x00, 0x03, 0x05, 0x09, 0x11, 0x21, 0x41, 0x81, 0xFF, 0xFE):
+                out.append(("separator-value", blk(sep=bytes([v])), v))
+            out.append(("separator-missing", blk(sep=b"\x00", msg=bytes(len(m))), "DB = lHash 00..00"))
+            out.append(("separator-missing", blk(sep=b"\x00", msg=b"\x02" + m[1:]), "first octet of M is 2"))
+            out.append(("separator-later", blk(sep=b"\x00", msg=b"\x01" + m[1:]), "00 01 M'"))
+            out.append(("separator-later", blk(sep=b"\x00", msg=bytes(len(m) - 1) + b"\x01"), "00..00 01 at the end"))
+            out.append(("separator-doubled", blk(msg=b"\x01" + m[1:]), None))
+            for v in top:
+                out.append(("first-octet", blk(first=v), v))
+            # two conditions violated together must not repair each other
+            l2 = bytearray(lh)
+            l2[0] ^= 1
+            l2[1] ^= 1
+            out.append(("lhash+first-octet", blk(lhash=bytes(l2), first=1), None))
+        elif pad == "pkcs1":
+            if mx < 4:
+                return out
+            m = bytes(rng.randrange(1, 256) for _ in range(rng.randrange(1, mx - 1)))       # no zero octet inside M
+            nps = k - 3 - len(m)
+            nz = lambda ln: bytes(rng.randrange(1, 256) for _ in range(ln))
+            blk = lambda first=0, bt=2, ps=None, sep=0, msg=m: bytes([first, bt]) + (nz(nps) if ps is None else ps) + bytes([sep]) + msg
+            out.append(("valid", blk(), None))
+            for v in top:
+                out.append(("first-octet", blk(first=v), v))
+            for v in (0x00, 0x01, 0x03, 0x06, 0x0A, 0x12, 0x22, 0x42, 0x82, 0xFF, 0xFD):
+                out.append(("block-type", blk(bt=v), v))
+            for i in range(min(nps, 8)):
+                ps = bytearray(nz(nps))
+                ps[i] = 0
+                out.append(("short-ps", blk(ps=bytes(ps)), i))
+            for i in sorted({8, nps - 1, rng.randrange(8, nps)} if nps > 8 else ()):
+                ps = bytearray(nz(nps))
+                ps[i] = 0
+                out.append(("separator-earlier", blk(ps=bytes(ps)), i))
+            for v in (0x01, 0x02, 0x80, 0xFF):
+                out.append(("no-separator", blk(sep=v), v))
+            out.append(("first-octet+block-type", blk(first=2, bt=0), None))
+        else:
+            if mx < 4:
+                return out
+            m = self.rbytes(rng.randrange(2, mx - 1))
+            blk = lambda first=0, mark=0xFF, msg=m: bytes([first]) + bytes(k - 2 - len(msg)) + bytes([mark]) + msg
+            out.append(("valid", blk(), None))
+            for v in top:
+                out.append(("first-octet", blk(first=v), v))
+            for v in (0xFE, 0xFD, 0xFB, 0xF7, 0xEF, 0xDF, 0xBF, 0x7F, 0x01, 0x80):
+                out.append(("marker", blk(mark=v), v))
+            out.append(("no-marker", blk(mark=0, msg=bytes(len(m))), None))
+            out.append(("marker-later", blk(mark=0, msg=b"\xff" + m[1:]), None))
+            out.append(("marker", blk(mark=1, msg=b"\xff" + m[1:]), "01 FF M'"))
+        return out
 
     def _oaep_ps(self, m, k, seed):
         """OAEP block whose padding string holds a non-zero octet other than the 0x01 separator"""
@@ -489,6 +655,40 @@ class Pke(W):
                         g2, back, r2 = self.call_io("cp_rabin_dec", c2, [key["prv"]], cap, inplace=True)
                         ctx.check(g2 and back == pt, "cp_rabin_dec|out==in|round-trip", {"pt": pt.hex(), "got": back.hex(), "ok": g2})
                 self.case("cp_rabin_enc|out==in", [bits, L, kind], g_)
+        # ---------------- model-built blocks: the redundancy (last eight octets repeated) and the 0xFF marker violated
+        # in structured ways; an accepted plaintext must at least re-encrypt to the submitted ciphertext
+        def craft(cls, v, exp, note=None):
+            if not (0 < v < n) or not self.mine():
+                return
+            c2 = pow(v, 2, n).to_bytes(k, "big")
+
+            def f():
+                good, back, res = self.call_io("cp_rabin_dec", c2, [key["prv"]], cap)
+                if exp is not None:
+                    ctx.check(good and back == exp, ctx.cur_key + ("|rejected" if not good else "|value"),
+                              {"block": hx(v), "got": back.hex(), "exp": exp.hex()})
+                elif good:
+                    ctx.check(1 <= len(back) <= mx and model_enc(back) == c2, ctx.cur_key + "|accepted", {"block": hx(v), "got": back.hex()})
+                else:
+                    ctx.ok()
+            self.case("cp_rabin_dec|crafted:%s" % cls, [bits, hx(v), note], f)
+        if mx >= 9:
+            for L in sorted({1, 7, 8, rng.randrange(9, mx + 1)}):
+                pt = bytes(rng.randrange(1, 255) for _ in range(L))
+                body = int.from_bytes(b"\xff" + pt, "big")
+                low = (body & ((1 << 64) - 1)).to_bytes(8, "big")
+                craft("valid", (body << 64) | int.from_bytes(low, "big"), pt, L)
+                for cls, l2 in alterations(low, rng, heavy and L >= 9):
+                    craft("redundancy:" + cls, (body << 64) | int.from_bytes(l2, "big"), None, [L, l2.hex()])
+                if L >= 9:
+                    # the copy is right, the marker is not (pt holds neither 0x00 nor 0xFF, so no later octet is one)
+                    for mk in (0xFE, 0xFD, 0xFB, 0xF7, 0xEF, 0xDF, 0xBF, 0x7F, 0x01, 0x00):
+                        b2 = int.from_bytes(bytes([mk]) + pt, "big")
+                        craft("marker", (b2 << 64) | (b2 & ((1 << 64) - 1)), None, [L, mk])
+            pt = bytes(rng.randrange(1, 255) for _ in range(mx))
+            body = int.from_bytes(b"\xff" + pt, "big")
+            for fb in (0x01, 0x02, 0x10, 0x80):
+                craft("first-octet", (fb << (8 * (k - 1))) | (body << 64) | (body & ((1 << 64) - 1)), None, fb)
         if last:
             pt, ct = last
             muts = []
@@ -1021,6 +1221,95 @@ class EcKa(W):
                         self.observe("cp_ecdh_key derives a key from an off-curve point (no validation of the peer's point)")
             self.case("cp_ecdh_key|%s" % cls, [cname], f)
 
+    # ---- curves with cofactor h > 1: peer keys that are valid curve points outside the prime-order subgroup
+    def small_order(self):
+        """{order class: point} of points of the active curve whose order divides the cofactor, built with the affine
+        model only: T = [n]R for random curve points R, and the doublings of T ({} when h = 1)"""
+        R, rng = self.R, self.rng
+        E, n, p, h = R.EC, R.n, R.curve["p"], R.curve["h"]
+        out = {}
+        if h == 1:
+            return out
+        a, b = R.curve["a"], R.curve["b"]
+
+        def order(T):
+            S = None
+            for k in range(1, 9):
+                S = E.add(S, T)
+                if S is None:
+                    return "ord=%d" % k
+            return "ord>8"
+        for _ in range(48):
+            x = rng.randrange(p)
+            y = sqrt_mod((x * x * x + a * x + b) % p, p)
+            if y is None:
+                continue
+            if rng.getrandbits(1):
+                y = -y % p
+            T = E.mul(n, (x, y))
+            for _d in range(4):
+                if T is None:
+                    break
+                if not (E.on_curve(T) and E.mul(h, T) is None):
+                    raise RuntimeError("curve model: [n]R is not in the h-torsion")
+                out.setdefault(order(T), T)
+                T = E.add(T, T)
+            if len(out) >= (3 if h == 8 else 2):
+                break
+        return out
+
+    def ecdh_cofactor(self, cname, n_it):
+        """cofactor Diffie-Hellman, Z = [h d]Q for every point Q of the curve: a peer key Q + T with T of small order is a
+        valid curve point and must give the key of the honest exchange (both parties, and the protocol's value); a peer
+        key of small order alone has [h]Q = infinity and must be refused"""
+        ctx, R, rng = self.ctx, self.R, self.rng
+        E, F, G, n, h = R.EC, R.FCv, R.G, R.n, R.curve["h"]
+        tors = self.small_order()
+        ctx.note("small_order_classes", {cname: sorted(tors)})
+        if not tors:
+            return
+        lim = 1 << (8 * (R.FC - 1))
+        for it in range(n_it):
+            for ocls, T in sorted(tors.items()):
+                # the conversion of short x-coordinates is a separate (listed) matter: keep x full-length here
+                while True:
+                    da, db = rng.randrange(1, n), rng.randrange(1, n)
+                    QA, QB = F.mul(da, G), F.mul(db, G)
+                    P = F.mul(da * h, QB)
+                    if P is not None and P[0] >= lim:
+                        break
+                T2 = rng.choice(sorted(tors.values()))
+                QBt, QAt = E.add(QB, T), E.add(QA, T2)
+                if not (E.on_curve(QBt) and E.eq(E.mul(h, QBt), E.mul(h, QB)) and E.eq(F.mul(db * h, QA), P)):
+                    raise RuntimeError("curve model: cofactor multiplication does not clear the small-order component")
+                klen = rng.choice([16, 32, 33, 64])
+                exp = kdf2(self.fe2os(P[0]), klen)
+                both = it % 2 == 1
+
+                def g_():
+                    R.bn_put(self.d1, da)
+                    R.bn_put(self.d2, db)
+                    R.pt_put(self.Q2, QBt)
+                    R.pt_put(self.Q1, QAt if both else QA)
+                    g1, k1, r1 = self.key_call("cp_ecdh_key", klen, [self.d1, self.Q2])
+                    g2, k2, r2 = self.key_call("cp_ecdh_key", klen, [self.d2, self.Q1])
+                    if not ctx.check(g1 and g2, ctx.cur_key + "|unexpected-error", {"ok": [g1, g2]}):
+                        return
+                    ctx.check(k1 == k2, ctx.cur_key + "|parties-disagree", {"k1": k1.hex(), "k2": k2.hex()})
+                    ctx.check(k1 == exp, ctx.cur_key + "|value", {"x": hx(P[0]), "got": k1.hex(), "exp": exp.hex()})
+                    ctx.check(k2 == exp, ctx.cur_key + "|value", {"x": hx(P[0]), "got": k2.hex(), "exp": exp.hex(), "party": "B"})
+                self.case("cp_ecdh_key|peer+small-order,%s%s" % (ocls, ",both" if both else ""),
+                          [cname, hx(da), hx(db), [hx(T[0]), hx(T[1])], klen], g_)
+        for ocls, T in sorted(tors.items()):
+            da = rng.randrange(1, n)
+
+            def f():
+                R.bn_put(self.d1, da)
+                R.pt_put(self.Q2, T)
+                good, k1, res = self.key_call("cp_ecdh_key", 32, [self.d1, self.Q2])
+                ctx.check(not good, ctx.cur_key + "|accepted", {"key": k1.hex()})
+            self.case("cp_ecdh_key|peer=small-order,%s" % ocls, [cname, hx(da), [hx(T[0]), hx(T[1])]], f)
+
     def ecmqv(self, cname, n_it):
         ctx, R, rng = self.ctx, self.R, self.rng
         E, F, G, n = R.EC, R.FCv, R.G, R.n
@@ -1096,7 +1385,7 @@ class EcKa(W):
         kk = kdf2(x.to_bytes(ln, "big"), 2 * size)
         return kk[:size], kk[size:], size
 
-    def ecies(self, cname, heavy):
+    def ecies(self, cname, heavy, structured=True):
         ctx, R, rng = self.ctx, self.R, self.rng
         E, F, G, n, p = R.EC, R.FCv, R.G, R.n, R.curve["p"]
         self.level = R.L.ep_param_level()
@@ -1159,6 +1448,64 @@ class EcKa(W):
             ctx.check(not good, ctx.cur_key + "|accepted")
         if len(pt) > 16:
             self.case("cp_ecies_dec|capacity-too-small", [cname, len(pt)], small)
+        if structured:
+            # the tag comparison must refuse every structured difference, not only a single altered octet
+            tag = ct[-32:]
+            for cls, t2 in alterations(tag, rng):
+                def f():
+                    good, back = self.ecies_dec(ct[:-32] + t2, Rp, cap)
+                    ctx.check(not good, ctx.cur_key + "|accepted", {"tag": t2.hex(), "right": tag.hex(), "got": back.hex()})
+                self.case("cp_ecies_dec|tag:%s" % cls, [cname, t2.hex()], f)
+            self.ecies_model(cname, d, Q)
+
+    def ecies_model(self, cname, d, Q):
+        """ciphertexts made by the model alone (ephemeral point, KDF2, AES-CBC with PKCS#7 padding from the FIPS 197 model,
+        HMAC): the well-formed ones must decrypt to the plaintext; a right tag over a body whose padding is malformed must
+        be refused.  (The empty plaintext is the listed matter of cp_ecies_enc|len=0 and is generated around.)"""
+        ctx, R, rng = self.ctx, self.R, self.rng
+        F, G, n = R.FCv, R.G, R.n
+        ke = rng.randrange(1, n)
+        Rp, P = F.mul(ke, G), F.mul(ke, Q)
+        ek, mk, size = self.ecies_key(P)
+        if size not in (16, 24, 32):
+            ctx.note("ecies_model_key_size_unsupported", size)
+            return
+        rk = mdbc.key_expansion(ek)
+        iv = bytes(16)
+
+        def feed(cls, padded, note=None):
+            exp = mdbc.pkcs7_unpad(padded)
+            if exp is not None and len(exp) == 0:
+                return
+            body = mdbc.cbc_encrypt_raw(rk, iv, padded)
+            c2 = body + hmac256(mk, body)
+
+            def f():
+                good, back = self.ecies_dec(c2, Rp, len(c2) + 16)
+                if exp is None:
+                    ctx.check(not good, ctx.cur_key + "|accepted", {"padded": padded.hex(), "got": back.hex()})
+                else:
+                    ctx.check(good and back == exp, ctx.cur_key + ("|rejected" if not good else "|value"),
+                              {"padded": padded.hex(), "got": back.hex()})
+            self.case("cp_ecies_dec|model-ciphertext:%s" % cls, [cname, hx(ke), padded.hex(), note], f)
+        for L in sorted({1, 16, rng.randrange(2, 16), rng.randrange(17, 80)}):
+            feed("valid", mdbc.pkcs7_pad(bytes(rng.randrange(17, 256) for _ in range(L))), L)
+        # the conformity of bc_aes_cbc_dec to PKCS#7 is judged exhaustively by C14; here: the scheme hands every kind of
+        # malformed padding on as a refusal
+        mid = rng.randrange(3, 16)
+        for npad in (1, mid, 16):
+            # data octets are > 16, so that the model's verdict does not hinge on a look-alike
+            data = bytes(rng.randrange(17, 256) for _ in range(48 - npad))
+            good_pad = bytes([npad]) * npad
+            for v in (0x00, 0x11, 0xFF, npad + 1, npad - 1):
+                feed("padding:last-octet", data + good_pad[:-1] + bytes([v & 0xFF]), [npad, v])
+            if npad == mid:
+                for cls, p2 in alterations(good_pad[:-1], rng):
+                    if cls.startswith(("1-octet", "2-octets-equal-xor", "2-octets-opposite-sum", "inverted", "zero", "first-half-only")):
+                        feed("padding:" + cls, data + p2 + good_pad[-1:], [npad, p2.hex()])
+                # a whole last block of the padding value (valid: the data then ends with look-alikes), and of zero
+                feed("padding:whole-block", data[:32] + bytes([npad]) * 16, npad)
+                feed("padding:whole-block", data[:32] + bytes(16), 0)
 
     def ecies_dec(self, ct, Rp, cap, inplace=False):
         R = self.R
@@ -1245,6 +1592,7 @@ def run_ec(ctx, alt=False):
         if alt:
             # few runs per curve: every key is recomputed from the protocol definition for both parties
             w.ecdh(nm, ctx.n(8, 100))
+            w.ecdh_cofactor(nm, ctx.n(2, 24))
             w.ecdh_directed(nm)
             w.ecmqv_directed(nm)
             w.ecdh_bad(nm)
@@ -1254,13 +1602,14 @@ def run_ec(ctx, alt=False):
             continue
         own = ctx.mine(ci)
         w.ecdh(nm, ctx.n(25, 400))
+        w.ecdh_cofactor(nm, ctx.n(2, 24))      # no-op on curves of prime order
         if own or not ctx.quick:
             w.ecdh_directed(nm)
             w.ecmqv_directed(nm)
             w.ecdh_bad(nm)
             w.pedersen(nm)
         w.ecmqv(nm, ctx.n(10, 200))
-        w.ecies(nm, heavy=own)
+        w.ecies(nm, heavy=own, structured=own or not ctx.quick)
     ctx.note("group_order_bits_and_cofactor", orders)
     w.finish()
 
